@@ -62,6 +62,20 @@ for case in cases:
                 else:
                     B.add_child(cb)
             rb, _ = attempt(ex)
+        elif k in ('R', 'D'):
+            ca, cb = R.make(op[1]), R.make(op[1]); ca._vid = cb._vid = i
+            def explicit(E, new):
+                def ex():
+                    f = [c for c in E.get_children(ordered=False) if c.name == op[1]]
+                    if k == 'D':
+                        if f:
+                            E.remove(f[0])
+                    elif f:
+                        E.replace_child(f[0], new)
+                    else:
+                        E.add_child(new)
+                return ex
+            ra, _ = attempt(explicit(A, ca)); rb, _ = attempt(explicit(B, cb))
         elif k == 'n':
             ra, _ = attempt(lambda: setattr(A, dotname(op[1]), None))
             def ex():
